@@ -7,7 +7,7 @@ replay), tied to the real cdc.Service + db.CDCStreamer + Bolt FIFO + HTTP sink b
 correspondence run.
 -/
 import RqModel.Model.CdcPipe
-import RqModel.Lemmas.Cdc7
+import RqModel.Lemmas.Cdc8
 import RqModel.Gen.CdcPipe
 namespace C25
 open RqModel.CdcPipe RqModel.Fifo
@@ -25,12 +25,40 @@ def changesOf (ops : List Op) : List Change :=
 /-- the healing suffix: the endpoint works, this node leads, the batcher's timer fires -/
 def heal : List Op := [.endpoint true, .leader true, .timer]
 
-/-- THE FULL STATEMENT (false of the faithful model, see the witnesses): after any history
-followed by `heal`, every change of every applied entry has been delivered, labelled with
-its entry's index. -/
+/-- raft applies log entries in strictly increasing index order (a fact about the
+environment, not an exclusion) -/
+def logOrdered (last : Nat) : List Op → Prop
+  | [] => True
+  | .entry e :: rest => last < e.idx ∧ logOrdered e.idx rest
+  | _ :: rest => logOrdered last rest
+
+/-- the exclusion under which the statement is proved: every applied entry yields at most
+one event group (single statement, or a transaction, or at most one statement touching a
+matching table) -/
+def allSingleGroup (ops : List Op) : Prop :=
+  ∀ op ∈ ops, match op with
+    | .entry e => single e = true
+    | _ => True
+
+/-- `wfOps` (the hypothesis of the lemmas) is exactly: log order + the exclusion -/
+theorem wfOps_iff (last : Nat) (ops : List Op) : wfOps last ops ↔ logOrdered last ops ∧ allSingleGroup ops := by
+  induction ops generalizing last with
+  | nil => simp [wfOps, logOrdered, allSingleGroup]
+  | cons op rest ih =>
+    cases op <;> simp [wfOps, logOrdered, allSingleGroup, ih] <;> grind
+
+/-- THE FULL STATEMENT — the property as stated, for one node of a cluster (false of the
+faithful model, see the witnesses): for every batch size and every history of entries
+applied in log order, timer firings, snapshots, leadership changes, outages, HWM broadcasts
+from other nodes, ticks and restarts, followed by `heal`: every change of every applied
+entry has been delivered by this node in a group labelled with its entry's index, or lies at
+or below a high-water mark announced by another node (which then delivered it). No retry
+limit, every stored item decodes (the initial state's defaults). -/
 def at_least_once_full : Prop :=
-  ∀ (b : Nat) (ops : List Op), 0 < b →
-    ∀ c ∈ changesOf ops, deliveredB (run { batchSz := b } (ops ++ heal)) c = true
+  ∀ (b : Nat) (ops : List Op), 0 < b → logOrdered 0 ops →
+    ∀ c ∈ changesOf ops,
+      deliveredB (run { batchSz := b } (ops ++ heal)) c = true ∨
+      c.1 ≤ (run { batchSz := b } (ops ++ heal)).maxIn
 
 /-- the streamer loses the index after the first commit inside one log entry -/
 theorem streamer_index_witness :
@@ -45,7 +73,7 @@ theorem at_least_once_witness_mislabelled :
 theorem at_least_once_witness :
     ¬ at_least_once_full := by
   intro h
-  have := h 1 [.leader true, .entry ⟨77, false, [1, 1, 1]⟩] (by decide) (77, 1) (by decide)
+  have := h 1 [.leader true, .entry ⟨77, false, [1, 1, 1]⟩] (by decide) (by simp [logOrdered]) (77, 1) (by decide)
   revert this
   decide
 
@@ -117,26 +145,26 @@ theorem droppedB_of (s : St) (c : Change) (d : Nat × Batch) (g : Group)
   refine ⟨g, hg, ?_⟩
   simp [hi, hc]
 
-theorem top_init_mr (b mr : Nat) (und : List Nat) (hb : 0 < b) :
-    Top { batchSz := b, maxRetries := mr, undecodable := und } := by
+theorem top_init_mr (b mr : Nat) (dec : Batch → Bool) (hb : 0 < b) :
+    Top { batchSz := b, maxRetries := mr, decodable := dec } := by
   have h := top_init b hb
   exact ⟨base_transfer _ _ _ h.base rfl rfl rfl rfl rfl rfl rfl rfl rfl rfl,
     cov_transfer _ _ _ h.cov (fun x hx _ => hx) rfl rfl rfl rfl rfl rfl, h.logOk, h.sorted, h.frontLe⟩
 
 /-- **At least once, unless the leader loop explicitly gives the event up** — the two DROP
 branches of the leader loop made explicit: for every batch size, EVERY retry limit `mr`
-(0 = none) and EVERY set `und` of FIFO keys whose stored bytes do not decompress, under the
+(0 = none) and EVERY predicate `dec` telling which batches' stored bytes decompress, under the
 same histories as `at_least_once_partial`, every change has been POSTed with its entry's
 index, or was in an event the leader gave up on (`dropped`: retry limit exhausted, or
 decompression failed), or lies at or below an HWM announced by another node. -/
-theorem at_least_once_or_dropped (b mr : Nat) (und : List Nat) (ops : List Op) (hb : 0 < b) (hwf : wfOps 0 ops) :
+theorem at_least_once_or_dropped (b mr : Nat) (dec : Batch → Bool) (ops : List Op) (hb : 0 < b) (hwf : wfOps 0 ops) :
     ∀ c ∈ changesOf ops,
-      deliveredB (run { batchSz := b, maxRetries := mr, undecodable := und } (ops ++ heal)) c = true ∨
-      droppedB (run { batchSz := b, maxRetries := mr, undecodable := und } (ops ++ heal)) c = true ∨
-      c.1 ≤ (run { batchSz := b, maxRetries := mr, undecodable := und } (ops ++ heal)).maxIn := by
+      deliveredB (run { batchSz := b, maxRetries := mr, decodable := dec } (ops ++ heal)) c = true ∨
+      droppedB (run { batchSz := b, maxRetries := mr, decodable := dec } (ops ++ heal)) c = true ∨
+      c.1 ≤ (run { batchSz := b, maxRetries := mr, decodable := dec } (ops ++ heal)).maxIn := by
   intro c hc
-  have h0 := top_init_mr b mr und hb
-  have hw0 : wfOps (lastIdx ({ batchSz := b, maxRetries := mr, undecodable := und } : St).log) ops := by simpa [lastIdx] using hwf
+  have h0 := top_init_mr b mr dec hb
+  have hw0 : wfOps (lastIdx ({ batchSz := b, maxRetries := mr, decodable := dec } : St).log) ops := by simpa [lastIdx] using hwf
   have ht := top_run _ ops h0 hw0
   obtain ⟨_, hlogE⟩ := log_of_run _ ops h0 hw0
   rw [run_append]
@@ -147,10 +175,10 @@ theorem at_least_once_or_dropped (b mr : Nat) (und : List Nat) (ops : List Op) (
   cases op with
   | entry e =>
     simp only at hcop
-    have he : e ∈ (run { batchSz := b, maxRetries := mr, undecodable := und } ops).log := hlogE e hop
+    have he : e ∈ (run { batchSz := b, maxRetries := mr, decodable := dec } ops).log := hlogE e hop
     have hs := (ht.logOk e he).2.2
-    obtain ⟨g, hg, hgi, hcg, hc1⟩ := change_in_group (run (run { batchSz := b, maxRetries := mr, undecodable := und } ops) heal).keepIdx e hs c hcop
-    have hgG : g ∈ groups (run (run { batchSz := b, maxRetries := mr, undecodable := und } ops) heal) := by
+    obtain ⟨g, hg, hgi, hcg, hc1⟩ := change_in_group (run (run { batchSz := b, maxRetries := mr, decodable := dec } ops) heal).keepIdx e hs c hcop
+    have hgG : g ∈ groups (run (run { batchSz := b, maxRetries := mr, decodable := dec } ops) heal) := by
       rw [mem_groups]; exact ⟨e, by rw [hlog]; exact he, hg⟩
     rcases done_of_drained _ htF hbat hheld hne g hgG with (⟨d, hd, hgd⟩ | ⟨d, hd, hgd⟩) | h
     · left; exact deliveredB_of _ c d g hd hgd (by rw [hgi, hc1]) hcg
@@ -165,7 +193,7 @@ theorem at_least_once_or_dropped (b mr : Nat) (und : List Nat) (ops : List Op) (
   | restart => simp at hcop
 
 /-- **At least once, unless a finite retry limit is configured and exhausted** — the
-property's own exception: with every stored item decodable (`und = []`, see `FlateLaw`),
+property's own exception: with every stored item decodable (see `FlateLaw`),
 for every batch size and EVERY retry limit `mr` (0 = none), every change has been POSTed
 with its entry's index, or was in an event the leader gave up on after the limit
 (`dropped`), or lies at or below an HWM announced by another node. -/
@@ -174,35 +202,39 @@ theorem at_least_once_or_retry_limit (b mr : Nat) (ops : List Op) (hb : 0 < b) (
       deliveredB (run { batchSz := b, maxRetries := mr } (ops ++ heal)) c = true ∨
       droppedB (run { batchSz := b, maxRetries := mr } (ops ++ heal)) c = true ∨
       c.1 ≤ (run { batchSz := b, maxRetries := mr } (ops ++ heal)).maxIn :=
-  at_least_once_or_dropped b mr [] ops hb hwf
+  at_least_once_or_dropped b mr (fun _ => true) ops hb hwf
 
 /-! ### the stored form of a FIFO item
 
 The FIFO stores `flate.Compress(json.Marshal(batch))`; the leader loop sends
-`flate.Decompress(stored)`. `FlateLaw` is what the delivery theorems assume of that pair: a
-round trip for EVERY input, with NO bound on its size (one batch holds up to
-`MaxBatchSz` groups, one group every row a transaction touched: tens of MiB are ordinary).
-`internal/rarchive/flate` is tied to it by the regenerated fact
-`C25.flate_decompress_unbounded` and by a round-trip oracle on 9–16 MiB inputs. -/
+`flate.Decompress(stored)` and DROPS the item when that fails. `FlateLaw` is what the
+delivery theorems assume of the pair: a round trip for EVERY input, with NO bound on its
+size (one batch holds up to `MaxBatchSz` groups, one group every row a transaction touched:
+tens of MiB are ordinary). The model's leader loop consults `St.decodable`, which
+`FlateLaw.decodes` derives from the pair; `internal/rarchive/flate` is tied to the law by the
+regenerated fact `flate_decompress_unbounded` and by a round-trip oracle on inputs up to
+16 MiB. -/
 
 structure FlateLaw (β : Type) where
   compress : Batch → β
   decompress : β → Option Batch
   round : ∀ b : Batch, decompress (compress b) = some b
 
-/-- FIFO keys of items the leader loop cannot decode, for an ARBITRARY compress/decompress pair -/
-def undecodableKeys {β : Type} (compress : Batch → β) (decompress : β → Option Batch)
-    (items : List (Nat × Batch)) : List Nat :=
-  (items.filter fun it => (decompress (compress it.2)).isNone).map (·.1)
+/-- what the leader loop experiences for batch `b` under a compress/decompress pair -/
+def decodesWith {β : Type} (compress : Batch → β) (decompress : β → Option Batch) (b : Batch) : Bool :=
+  (decompress (compress b)).isSome
 
-/-- under the law no stored item is undecodable: the `und = []` of the theorems below -/
-theorem lawful_flate_decodes_everything {β : Type} (L : FlateLaw β) (items : List (Nat × Batch)) :
-    undecodableKeys L.compress L.decompress items = [] := by
-  unfold undecodableKeys
-  simp [L.round]
+def FlateLaw.decodes {β : Type} (L : FlateLaw β) : Batch → Bool := decodesWith L.compress L.decompress
 
-/-- a decompressor that refuses outputs above a size bound (size = number of changes) is NOT
-lawful: here the bound is 2 -/
+theorem FlateLaw.decodes_all {β : Type} (L : FlateLaw β) : L.decodes = fun _ => true := by
+  funext b
+  simp [FlateLaw.decodes, decodesWith, L.round]
+
+/-- the law is satisfiable: storing the batch as it is -/
+def idFlate : FlateLaw Batch := { compress := id, decompress := some, round := fun _ => rfl }
+
+/-- a decompressor that refuses outputs above a size bound (size = number of changes): it
+breaks `FlateLaw.round` for every batch above the bound -/
 def boundedDecompress (bound : Nat) (b : Batch) : Option Batch :=
   if (b.map (·.chg.length)).sum > bound then none else some b
 
@@ -213,9 +245,9 @@ event is dropped (no POST, not even a failed one), the small one is delivered, t
 passes 1: the three changes of entry 1 are never delivered, with no retry limit set. -/
 theorem decode_failure_witness :
     let big : Entry := ⟨1, true, [1, 1, 1]⟩
-    let und := undecodableKeys id (boundedDecompress 2) [(1, streamEntry big)]
-    let s := run { batchSz := 1, undecodable := und } ([.entry big, .entry ⟨2, false, [1]⟩] ++ heal)
-    und = [1] ∧ deliveredB s (1, 0) = false ∧ droppedB s (1, 0) = true ∧
+    let s := run { batchSz := 1, decodable := decodesWith id (boundedDecompress 2) }
+      ([.entry big, .entry ⟨2, false, [1]⟩] ++ heal)
+    deliveredB s (1, 0) = false ∧ droppedB s (1, 0) = true ∧
       deliveredB s (2, 0) = true ∧ s.hwm = 2 ∧ s.fifo.nextEv = none ∧ s.maxRetries = 0 := by
   decide
 
@@ -229,8 +261,10 @@ works, this node leads and the batcher's timer has fired, every change of every 
 entry has been POSTed in a group labelled with its entry's index — or lies at or below a
 high-water mark announced by another node (which, by that node's own guarantee, delivered
 it). Hypotheses carried by the initial state: no finite retry limit (`maxRetries = 0`) and
-every stored item decompresses (`undecodable = []`, i.e. `FlateLaw`; see
-`lawful_flate_decodes_everything`, `flate_decompress_unbounded`, `decode_failure_witness`). -/
+every stored item decompresses (`decodable = fun _ => true`; `at_least_once_under_flate_law`
+derives that from `FlateLaw`; see `flate_decompress_unbounded`, `decode_failure_witness`).
+Compared with `at_least_once_full` the one extra hypothesis is the exclusion `allSingleGroup`
+(`wfOps_iff`: `wfOps` = log order + every entry yields at most one event group). -/
 theorem at_least_once_partial (b : Nat) (ops : List Op) (hb : 0 < b) (hwf : wfOps 0 ops) :
     ∀ c ∈ changesOf ops,
       deliveredB (run { batchSz := b } (ops ++ heal)) c = true ∨
@@ -240,11 +274,29 @@ theorem at_least_once_partial (b : Nat) (ops : List Op) (hb : 0 < b) (hwf : wfOp
   · exact Or.inl h
   · -- no retry limit: nothing is ever dropped
     exfalso
-    have := (run_no_drop { batchSz := b, maxRetries := 0 } (ops ++ heal) rfl rfl rfl).1
+    have := (run_no_drop { batchSz := b, maxRetries := 0 } (ops ++ heal) rfl rfl (fun _ => rfl)).1
     unfold droppedB at h
     rw [this] at h
     simp at h
   · exact Or.inr h
+
+/-- **The part of `at_least_once_full` that holds, with every hypothesis spelled out**: the
+full statement's own hypotheses (batch size, log order) plus (1) the exclusion
+`allSingleGroup` and (2) a compress/decompress pair for the FIFO's stored form satisfying the
+round-trip law `FlateLaw` (no size bound), from which the leader loop's `decodable` is
+derived. (No retry limit: `maxRetries` defaults to 0; `at_least_once_or_dropped` covers the
+rest.) -/
+theorem at_least_once_single_group_under_flate_law {β : Type} (L : FlateLaw β)
+    (b : Nat) (ops : List Op) (hb : 0 < b) (hlog : logOrdered 0 ops) (hsingle : allSingleGroup ops) :
+    ∀ c ∈ changesOf ops,
+      deliveredB (run { batchSz := b, decodable := L.decodes } (ops ++ heal)) c = true ∨
+      c.1 ≤ (run { batchSz := b, decodable := L.decodes } (ops ++ heal)).maxIn := by
+  rw [L.decodes_all]
+  exact at_least_once_partial b ops hb ((wfOps_iff 0 ops).2 ⟨hlog, hsingle⟩)
+
+/-- the law is inhabited, so the theorem above is not vacuous -/
+example (b : Nat) (ops : List Op) (hb : 0 < b) (hlog : logOrdered 0 ops) (hsingle : allSingleGroup ops) :=
+  at_least_once_single_group_under_flate_law idFlate b ops hb hlog hsingle
 
 /-- **Within one tenure the POSTs are in strictly increasing key order** (the key of a
 POST is the highest log index it carries). `pre` is any earlier history; `seg` any stretch
@@ -323,25 +375,30 @@ event and goes on to the next one — the model's decompress DROP (`pump`, `unde
 theorem leader_decode_failure_is_a_drop :
     RqModel.Gen.CdcPipe.leaderDecodeFailure = ["s.unsent = nil", "continue"] := by decide
 
-/-- with the drain, operations arriving while groups are still in the channel behave exactly
-like operations at quiescent points: the histories of `at_least_once_partial` cover them -/
-theorem queued_entry_is_entry (s : St) (e : Entry) :
-    drainHand (stepHand true { s := s, queued := [] } (.entryQueued e)) = { s := stepOp s (.entry e), queued := [] } := rfl
+/-- **Entries still in the hand-off channel**: with the drain on a snapshot sync (the tree),
+for ANY interleaving of queued entries (`entryQueued`: applied, groups still in the channel)
+and operations, once the channel has drained the pipeline is in exactly the state reached by
+the history in which each entry is applied, where it was queued, at a quiescent point
+(`OpQ.flat`). Proved for every history (`runHand_is_run`: the pipeline steps other than
+`sync`/`restart` never read the raft log). A restart is modelled as finding the channel
+drained; the schedule in which the process dies with groups still in the channel is not
+modelled (those entries are above every snapshot, because the sync drains the channel, so
+raft replays them). -/
+theorem handoff_histories_are_quiescent_histories (s : St) (xs : List OpQ) :
+    (drainHand (runHand true { s := s } xs)).s = run s (xs.map OpQ.flat) :=
+  runHand_is_run { s := s } xs
 
-theorem runHand_ops (q : StQ) (ops : List Op) (h : q.queued = []) :
-    (runHand true q (ops.map OpQ.op)).s = run q.s ops ∧ (runHand true q (ops.map OpQ.op)).queued = [] := by
-  induction ops generalizing q with
-  | nil => exact ⟨rfl, h⟩
-  | cons o rest ih =>
-    show (runHand true (stepHand true q (.op o)) (rest.map OpQ.op)).s = run (stepOp q.s o) rest ∧
-      (runHand true (stepHand true q (.op o)) (rest.map OpQ.op)).queued = []
-    have hd : drainHand q = q := by
-      cases q with
-      | mk s queued => simp only at h; subst h; rfl
-    have hstep : stepHand true q (.op o) = { s := stepOp q.s o, queued := [] } := by
-      cases o <;> simp [stepHand, hd]
-    rw [hstep]
-    exact ih _ rfl
+/-- hence at-least-once for histories with queued entries anywhere (same hypotheses as
+`at_least_once_partial`, on the flattened history) -/
+theorem at_least_once_with_queued_entries (b : Nat) (xs : List OpQ) (hb : 0 < b)
+    (hwf : wfOps 0 (xs.map OpQ.flat)) :
+    ∀ c ∈ changesOf (xs.map OpQ.flat),
+      deliveredB (drainHand (runHand true { s := { batchSz := b } } (xs ++ heal.map OpQ.op))).s c = true ∨
+      c.1 ≤ (drainHand (runHand true { s := { batchSz := b } } (xs ++ heal.map OpQ.op))).s.maxIn := by
+  have hflat : (xs ++ heal.map OpQ.op).map OpQ.flat = xs.map OpQ.flat ++ heal := by
+    simp [heal, OpQ.flat]
+  rw [runHand_is_run, hflat]
+  exact at_least_once_partial b (xs.map OpQ.flat) hb hwf
 
 /-- The repaired defect (`drainOnSync = false`): the flush of a snapshot sync overtook the
 group of an entry still in the channel; after the snapshot the entry is no longer replayed,
